@@ -53,7 +53,11 @@ impl LocalTypingContext {
   pub(super) fn get_captured(&self, lambda_loc: &Location) -> HashMap<PStr, Arc<Type>> {
     let mut map = HashMap::new();
     for (name, loc) in self.ssa_analysis_result.lambda_captures.get(lambda_loc).unwrap() {
-      map.insert(*name, self.type_map.get(loc).unwrap().dupe());
+      // A captured name without a recorded type is not a local variable: a placeholder name the
+      // parser made up for a missing identifier can resolve to an equally nameless toplevel.
+      if let Some(t) = self.type_map.get(loc) {
+        map.insert(*name, t.dupe());
+      }
     }
     map
   }
